@@ -21,6 +21,38 @@ TRUSTED = [
 WORKER = os.path.join(os.path.dirname(os.path.dirname(os.path.abspath(__file__))), "smworker.py")
 
 
+def directed_runs(tt):
+    """one run per row of the table that can fire at all: a shortest path of rows from the initial state to the row's
+    source (each step with exactly its own guard true), then the row's event with its guard true"""
+    first = tt[0][0]
+
+    def firing(row):
+        """the guard valuation under which `row` is the first of its (state, event) pair to fire; None if it cannot"""
+        for other in tt:
+            if other is row:
+                return [row[4]] if row[4] else []
+            if (other[0], other[1]) == (row[0], row[1]) and (not other[4] or other[4] == row[4]):
+                return None
+        return None
+    # breadth-first over states
+    path = {first: []}
+    todo = [first]
+    while todo:
+        s = todo.pop(0)
+        for row in tt:
+            if row[0] == s and row[2] and row[2] not in path:
+                val = firing(row)
+                if val is not None:
+                    path[row[2]] = path[s] + [[row[1], val]]
+                    todo.append(row[2])
+    out = []
+    for row in tt:
+        val = firing(row)
+        if val is not None and row[0] in path:
+            out.append(path[row[0]] + [[row[1], val]])
+    return out
+
+
 def table_case(runner, r, oc, reqs, pend, nruns, big=False):
     model = genlib.rand_sm_model(r, "py", big)
     model["iface"]["usertags"] = {"StateMachineThread": 0}
@@ -50,6 +82,7 @@ def table_case(runner, r, oc, reqs, pend, nruns, big=False):
             for _ in range(r.randint(1, 12)):
                 run.append([r.choice(events), [g for g in guards if r.random() < 0.5]])
             runs.append(run)
+        runs += directed_runs(tt)[:12]
         cfg = dict(dir=out, name=model["name"], states=states, guards=guards, actions=actions, events=nparams, runs=runs)
         p = subprocess.run([sys.executable, WORKER], input=json.dumps(cfg), text=True, capture_output=True, timeout=300)
         try:
@@ -122,7 +155,7 @@ def run(tier):
     oc = Outcome(PROP)
     oc.rule = ("random well-formed tables (several rows per (state,event), guarded rows with unguarded fallback, unguarded before guarded, self loops, target-only states, repeated rows, "
                "None/none/'' spellings, event parameter interfaces) -> real StateMachine_PYTHON -> (a) process region parsed back == Model.EmitPy.emit, "
-               "(b) modules imported in a fresh interpreter, random event sequences with a fresh random guard valuation per event through a recording controller, "
+               "(b) modules imported in a fresh interpreter, random event sequences with a fresh random guard valuation per event, plus one directed run per row (a shortest path of rows to its source state, then the row itself), through a recording controller, "
                "callback trace and Is<State>() compared with the reference semantics; non-trivial = table with more than one row")
     oc.assumptions = TRUSTED
     r = rng(PROP)
